@@ -265,6 +265,11 @@ pub fn install() {
     });
 }
 
+/// total number of instrumented lock acquisitions so far (a progress measure for watchdogs)
+pub fn acquisitions() -> u64 {
+    mon().acquisitions.load(Ordering::Relaxed)
+}
+
 pub fn set_level(level: u8) {
     install();
     mon().level.store(level, Ordering::SeqCst);
